@@ -55,6 +55,21 @@ func runC02(r *Report) {
 					clamped = true
 				}
 			}
+			// ... and it only delays: the wait is bounded by the life of the bridge, not by a deadline of its
+			// own (WaitN fails at once when the wait would exceed the context's deadline; the copy loop
+			// treats that as fatal and the bytes just read are dropped although neither end closed)
+			deadline := ""
+			for _, rt := range Origins(Arg(w, 0)) {
+				if c, ok := rt.V.(*ssa.Call); ok && CalleeOf(c).Is("context:WithTimeout", "context:WithDeadline") {
+					deadline = CalleeOf(c).Name
+				}
+				if e, ok := rt.V.(*ssa.Extract); ok {
+					if c, ok := e.Tuple.(*ssa.Call); ok && CalleeOf(c).Is("context:WithTimeout", "context:WithDeadline") {
+						deadline = CalleeOf(c).Name
+					}
+				}
+			}
+			r.Ob("R-C02-1", CallPos(w), deadline == "", "the bandwidth wait runs under the bridge's own context ("+originSummary(Arg(w, 0))+"), not one with a deadline: a limit only delays bytes", r.P.FuncName(f), "wait-without-deadline")
 			r.Ob("R-C02-1", CallPos(w), clamped, "the token amount waited for is clamped to the limiter's burst ("+originSummary(Arg(w, 1))+"): a read larger than the bucket is waited for in slices, never refused", r.P.FuncName(f), "wait-clamped-to-burst")
 		}
 	}
